@@ -75,6 +75,9 @@ func histName(h []op) string {
 	return strings.Join(s, ",")
 }
 
+// closingOp is issued after every history that leaves the conversation alive.
+var closingOp = op{req: 1, ans: 0}
+
 func inRange(v int) bool { return v >= 0 && v <= 65535 }
 
 var reqAlphabet = []int{0, 1, 3, 65535, 65536}
@@ -267,6 +270,7 @@ func pairBody(h []op) func() {
 			answers = append(answers, o.ans)
 		}
 	}
+	answers = append(answers, closingOp.ans)
 	return func() {
 		sa, tapS := rt.ConnPair("srv", "tapS")
 		tapC, ca := rt.ConnPair("tapC", "cli")
@@ -331,8 +335,38 @@ func pairBody(h []op) func() {
 			return s.Choose() == 0
 		}
 		alive := waitInit()
+		ended := false                      // the outbound side ended the protocol (Done)
 		var held []txsubmission.TxIdAndSize // received and not yet acknowledged (harness view)
-		for i, o := range h {
+		// an application that wants to go on after Done restarts its client and sends Init
+		// again (once everything has settled)
+		reinit := func() {
+			if alive && ended {
+				vtime.Sleep(100 * time.Millisecond)
+				cli.Stop()
+				cli.Start()
+				cli.Init()
+				alive = waitInit()
+				ended = false
+			}
+		}
+		requestIds := func(o op) {
+			rt.Log("api ids b=%t req=%d", o.blocking, o.req)
+			ids, err := srv.RequestTxIds(o.blocking, o.req)
+			rt.Log("ret ids n=%d err=%s", len(ids), errStr(err))
+			switch {
+			case err == nil:
+				held = ids
+			case !inRange(o.req):
+				// local rejection: the conversation is untouched
+			case errors.Is(err, txsubmission.ErrStopServerProcess):
+				held = nil
+				ended = true
+			default:
+				alive = false
+			}
+		}
+		for _, o := range h {
+			reinit()
 			if !alive {
 				break
 			}
@@ -349,32 +383,18 @@ func pairBody(h []op) func() {
 				}
 				continue
 			}
-			rt.Log("api ids b=%t req=%d", o.blocking, o.req)
-			ids, err := srv.RequestTxIds(o.blocking, o.req)
-			rt.Log("ret ids n=%d err=%s", len(ids), errStr(err))
-			switch {
-			case err == nil:
-				held = ids
-			case !inRange(o.req):
-				// local rejection: the conversation is untouched
-			case errors.Is(err, txsubmission.ErrStopServerProcess):
-				// the outbound side ended the protocol; an application that wants to go on
-				// restarts its client and sends Init again (once everything has settled)
-				held = nil
-				if i+1 < len(h) {
-					vtime.Sleep(100 * time.Millisecond)
-					cli.Stop()
-					cli.Start()
-					cli.Init()
-					alive = waitInit()
-				}
-			default:
-				alive = false
-			}
+			requestIds(o)
 		}
 		vtime.Sleep(50 * time.Millisecond)
 		sp, cp := srv.ProtocolInstance(), cli.ProtocolInstance()
 		rt.Log("final ack=%d sstate=%s cstate=%s", srv.VerifAckCount(), sp.VerifCurrentState(), cp.VerifCurrentState())
+		// closing request: whatever the server's bookkeeping has become after the history
+		// shows on the wire as the acknowledgement of one more (non-blocking) request
+		reinit()
+		if alive {
+			rt.Log("closing")
+			requestIds(closingOp)
+		}
 		// connection shutdown as ouroboros.Connection does it: stop the muxers
 		smux.Stop()
 		cmux.Stop()
@@ -522,6 +542,9 @@ func pairScenario(group string, h []op) e1lib.Scenario {
 				wantWire++
 			}
 			m = m.step(o)
+		}
+		if !m.over {
+			wantWire++ // the closing request
 		}
 		if nWire != wantWire {
 			out = append(out, rt.Finding{Key: "harness:requests-on-wire", What: fmt.Sprintf("expected %d RequestTxIds messages on the wire, saw %d: %v", wantWire, nWire, r.Logs)})
